@@ -18,6 +18,8 @@ def run(P, R, L):
     K.pair9_levels(P, R, L)
     K.grd13_find_file_compares_internal_keys(P, R, L)
     R.clause("GRD-13", "the level>=1 file search orders by the full internal key (output files may be cut inside the versions of one user key)")
+    R.clause("GRD-14", "a manual compaction never drops some of the overlapping level-0 inputs")
+    K.grd14_manual_inputs(P, R, L)
     R.clause("ROLE-3", "level roles of version edits: outputs at level+1, inputs of both levels deleted, trivial move level -> level+1")
     K.role3_levels(P, R, L)
     R.clause("PAIR-3", "bounds of every output file are captured from the entries added to it")
